@@ -41,3 +41,43 @@ Print Assumptions C07_member_lengths.
 Theorem C07_member_lengths_refuted_before_fix : exists ms, read_lengths_found ms <> map written_length ms.
 Proof. exact lengths_found_refuted. Qed.
 Print Assumptions C07_member_lengths_refuted_before_fix.
+
+(* ---- the type sub-language (Model/C07T.v: GIRWriter._write_type, GIRParser._parse_type_simple/_parse_type/_parse_type_array_length,
+   Namespace.type_from_name, GIRWriter._type_to_name).  For EVERY type the abstract syntax tree can hold - C arrays and GLib array
+   kinds with any fixed size, length index and zero-termination, lists, hash tables, fundamental types, names of this and of other
+   namespaces, unresolved C types, nested to any depth - what the reader makes of the written element is written as the same
+   element again; and it is the same type unless a name of the own namespace is spelled like a fundamental type.
+   Hypotheses: namespace names without '.', GI names of the form Namespace.Name, array kinds and list names the ones the syntax
+   tree allows, no <varargs/> as element of a list or hash table, and no named type called GLib.List, GLib.SList or
+   GLib.HashTable (those are containers to the reader). *)
+From GIV.Model Require Import C07T.
+From GIV.Proofs Require Import C07T.
+
+Theorem C07_type_cycle : forall ns t, ~ In 46%N ns -> wf_ty ns t ->
+  exists t', read_ty ns (write_ty ns t) = Some t' /\ write_ty ns t' = write_ty ns t.
+Proof. exact type_cycle. Qed.
+Print Assumptions C07_type_cycle.
+
+Theorem C07_type_read_back : forall ns t, ~ In 46%N ns -> wf_ty ns t -> no_clash ns t ->
+  read_ty ns (write_ty ns t) = Some t.
+Proof. exact read_back. Qed.
+Print Assumptions C07_type_read_back.
+
+(* '%d' % n read by int() is n, for every n: fixed sizes and length indices of any magnitude *)
+Theorem C07_numbers : forall n, undec (dec n) = Some n.
+Proof. exact undec_dec. Qed.
+Print Assumptions C07_numbers.
+
+Example C07_type_nonvacuous :
+  let ns := [70;111;111]%N in      (* Foo *)
+  let t := AMap (Some [71;72;97;115;104;84;97;98;108;101;42]%N)
+                (AFund [117;116;102;56]%N None)
+                (AArray None (Some [70;111;111;66;97;114;42;42]%N) true (Some 12%N) (Some 2%N)
+                        (AList s_gslist None (ANamed [70;111;111;46;66;97;114]%N (Some [70;111;111;66;97;114;42]%N)))) in
+  ~ In 46%N ns /\ wf_ty ns t /\ no_clash ns t /\ read_ty ns (write_ty ns t) = Some t.
+Proof.
+  cbv zeta. split; [simpl; intuition discriminate|]. split.
+  - cbn [wf_ty]. repeat split; try discriminate; try reflexivity; try (right; reflexivity).
+    exists [70;111;111]%N, [66;97;114]%N. repeat split; simpl; intuition discriminate.
+  - split; [cbn; repeat split; reflexivity|vm_compute; reflexivity].
+Qed.
